@@ -209,6 +209,27 @@ def job(args):
                                      % (cfg["memtype"], nph, cfg["colbits"], cfg["wl"], cfg["rl"], i, iv, idat, rv, rd),
                                      replay=dict(config=cfg, cycle=i, trace=lines[max(2, i - 12):i + 3])))
             break
+    # (3) the abstract multi-bank DRAM of C19.simphy_refines_abstract_dram, evaluated on the implementation: while the
+    # trace meets the theorem's legality hypothesis (evaluated by the driver, cycLegal), the real model's read strobe and
+    # data must be the abstract DRAM's
+    ao = core.run_driver("adram", lines)
+    wf = ao[0].strip() == "cfg wf=1"
+    ao = ao[2:]
+    nlegal = 0
+    for i in range(min(n_obs, len(ao))):
+        av, ad, alegal = ao[i].split()[:3]
+        if not wf or alegal != "1":
+            break
+        nlegal += 1
+        iv, idat = obs[i].split()
+        r.evaluations += 1
+        if (iv != av or (av == "1" and idat != ad)) and not r.violations:
+            r.violations.append(dict(signature="c19-abstract-dram", what="%s 1:%d colbits=%d WL=%d RL=%d: at cycle %d the model returns valid=%s data=%s, the abstract DRAM of the theorem valid=%s data=%s (trace legal up to here)"
+                                     % (cfg["memtype"], nph, cfg["colbits"], cfg["wl"], cfg["rl"], i, iv, idat, av, ad),
+                                     replay=dict(config=cfg, cycle=i, trace=lines[max(2, i - 12):i + 3])))
+            break
+    r.coverage["traces_meeting_theorem_hypotheses_completely"] = int(wf and nlegal >= min(n_obs, len(ao)))
+    r.coverage["cycles_judged_against_abstract_dram"] = nlegal
     # final memory contents: implementation (Migen memories) vs transcription
     for k, gidx in enumerate(dump_idx):
         if str(final[gidx]) != simmem[k] and len(r.mismatches) < 3:
